@@ -73,7 +73,7 @@ Definition row_ok (r : nvrow) : bool :=
       | Some U, Some Inp =>
           let M := mmul U Inp in
           let phi0 := mov_phi0 (r_place r) M in
-          meqb M (mov_out (r_place r) phi0) && unit_vec phi0
+          meqb M (mov_out (r_place r) phi0) && unit_vec phi0 && mshort phi0
       | _, _ => false
       end
   | g =>
@@ -90,6 +90,8 @@ Definition row_spec (r : nvrow) : Prop :=
       exists U Inp phi0,
         circuit (n_wires (r_place r)) (r_seq r) = Some U /\
         mov_in (r_place r) = Some Inp /\
+        dims_ok 2 1 phi0 = true /\                     (* phi0 is a 2 x 1 column *)
+        mshort phi0 = true /\
         mmul U Inp = mov_out (r_place r) phi0 /\       (* same phi0 and same phase for every psi *)
         mmul (mdagger phi0) phi0 = [[kone]]
   | g =>
